@@ -441,7 +441,7 @@ fn run_managed_threads(trace: &Value) {
         progress(i);
         let tname = step["thread"].as_str().unwrap();
         let w = workers.get_mut(tname).unwrap();
-        { let mut g = sh.lock().unwrap(); let mut extra: VecDeque<Value> = step["env"].as_array().unwrap().iter().filter(|e| e[0] != "timer" && e[0] != "cbskip").cloned().collect(); g.script.append(&mut extra); }
+        { let mut g = sh.lock().unwrap(); let mut extra: VecDeque<Value> = step["env"].as_array().unwrap().iter().filter(|e| e[0] != "timer" && e[0] != "cbskip" && e[0] != "cblocked").cloned().collect(); g.script.append(&mut extra); }
         let mut cbskip = step["env"].as_array().unwrap().iter().filter(|e| e[0] == "cbskip").count();
         if step["act"][0] == "step" {
             if !w.busy { println!("{}", json!({"i": i, "res": ["driver_error", "step on an idle thread"]})); return; }
